@@ -122,7 +122,7 @@ def run_mie(case):
 # ------------------------------------------------------------------------------------------
 def strat_py(tier):
     return st.fixed_dictionaries({
-        "s": gen.sphere_dimless(0.05, 200.0 if tier == "quick" else 400.0, absorbing=False),
+        "s": gen.sphere_dimless(0.05, 200.0 if tier == "quick" else 400.0).map(lambda s: dict(s, m=[s["m"][0], min(s["m"][1], 200.0 / s["x"])])),
         "theta": st.lists(st.floats(0.0, math.pi), min_size=1, max_size=6),
     })
 
@@ -130,12 +130,15 @@ def strat_py(tier):
 def run_py(case):
     from holopy.scattering.theory.mielensfunctions import MieScatteringMatrix
     s = case["s"]
-    m = s["m"][0]
+    m = complex(*s["m"]) if s["m"][1] else s["m"][0]
     theta = np.array(case["theta"])
-    labels = [size_class(s["x"])]
+    labels = [size_class(s["x"]), "absorbing" if s["m"][1] else "real"]
+    # the series is written in van de Hulst's exp(+i w t) convention: the lens theories hand it the
+    # conjugate index (n - ik for an absorbing sphere) and its output is the conjugate of B&H's
+    mc = np.conj(m)
     try:
-        perp = MieScatteringMatrix("perpendicular", index_ratio=m, size_parameter=s["x"])(theta)
-        par = MieScatteringMatrix("parallel", index_ratio=m, size_parameter=s["x"])(theta)
+        perp = MieScatteringMatrix("perpendicular", index_ratio=mc, size_parameter=s["x"])(theta)
+        par = MieScatteringMatrix("parallel", index_ratio=mc, size_parameter=s["x"])(theta)
     except RuntimeError as e:
         if "nan" in str(e):     # documented outcome of the naive series
             return Outcome(None, False, labels + ["documented_nan_error"], skipped=True)
@@ -145,7 +148,7 @@ def run_py(case):
     # van de Hulst (exp(+i w t)) <-> Bohren & Huffman: complex conjugation for real m
     e = max(np.abs(perp - np.conj(S1)).max(), np.abs(par - np.conj(S2)).max())
     if e > 1e-5 * TOLX * scale:
-        return Outcome(failure("python_series_vs_textbook", "rel err %.3g at x=%.4g m=%.4g" % (e / scale, s["x"], m),
+        return Outcome(failure("python_series_vs_textbook", "rel err %.3g at x=%.4g m=%r" % (e / scale, s["x"], m),
                                size=size_class(s["x"])), True, labels)
     return Outcome(None, abs(m - 1) > 0.02, labels, metrics={"rel": e / scale})
 
@@ -315,7 +318,7 @@ SUBCHECKS = [
         "random polarization angle, all 4 option combinations; non-trivial = |m-1| > 0.02 and non-zero reference field",
         tolerances={"field": "1e-6*max|ref| + 3*|ref(Wiscombe order) - ref(Wiscombe+15)| + 1e-7*(sum (2n+1)(|a_n|+|b_n|)/2)/kr_min", "scat_matrix_rel": 3e-5}),
     Sub("python_series", strat_py, run_py, 4000, 60000,
-        "MieScatteringMatrix (parallel & perpendicular) at 1-6 polar angles in [0,pi], real m, x in [0.05,200] "
+        "MieScatteringMatrix (parallel & perpendicular) at 1-6 polar angles in [0,pi], real and absorbing m (passed as the conjugate, as the lens theories do), x in [0.05,200] "
         "(thorough 400); documented RuntimeError('nan') counted as skipped; non-trivial = |m-1|>0.02",
         tolerances={"rel_to_max": 1e-5}),
     Sub("multisphere_one_sphere", strat_ms, run_ms, 5000, 80000,
